@@ -2634,7 +2634,13 @@ impl Formatter {
     if self.html {
       format!("<table class=\"mech-table\">{}<tbody class=\"mech-table-body\">{}</tbody></table>",header,rows)
     } else {
-      format!("{}{}", header, rows)
+      // text mode: | header | row | row |
+      let mut src = format!("|{} |", header);
+      for row in node.rows.iter() {
+        let r = self.table_row(row);
+        src = format!("{} {} |", src, r);
+      }
+      src
     }
   }
 
@@ -2645,7 +2651,7 @@ impl Formatter {
       if self.html {
         src = format!("{}<th class=\"mech-table-field\">{}</th>",src, f);
       } else {
-        src = format!("{}{}",src, f);
+        src = format!("{} {}",src, f);
       }
     }
     if self.html {
@@ -2691,7 +2697,7 @@ impl Formatter {
     if self.html {
       format!("<div class=\"mech-field\"><span class=\"mech-field-name\">{}</span><span class=\"mech-field-kind\">{}</span></div>",name,kind)
     } else {
-      format!("{}: {}", name, kind)
+      format!("{}{}", name, kind)
     }
   }
 
